@@ -64,6 +64,8 @@ func broken(format string, a ...any) {
 	panic(BrokenError{fmt.Sprintf(format, a...)})
 }
 
+var loadMinFuncs = 100
+
 func loadProg(dir string, tags string, goarch string) *Prog {
 	env := append(os.Environ(), "GOFLAGS=-mod=mod", "GOPROXY=off", "GOSUMDB=off", "GOTOOLCHAIN=local", "GOWORK=off")
 	if goarch != "" {
@@ -148,9 +150,42 @@ func loadProg(dir string, tags string, goarch string) *Prog {
 		p.Funcs = append(p.Funcs, f)
 		p.inScope[f] = true
 	}
+	// AllFunctions is reachability-based; also take every declared function and method of the in-scope
+	// packages (unexported, uncalled ones included) and their closures.
+	var addFn func(f *ssa.Function)
+	addFn = func(f *ssa.Function) {
+		if f == nil || f.Blocks == nil || p.inScope[f] || f.Synthetic != "" {
+			return
+		}
+		p.Funcs = append(p.Funcs, f)
+		p.inScope[f] = true
+		for _, a := range f.AnonFuncs {
+			addFn(a)
+		}
+	}
+	for _, path := range scopePkgs {
+		sp := p.byPkg[path]
+		for _, m := range sp.Members {
+			switch x := m.(type) {
+			case *ssa.Function:
+				if x.Name() != "init" {
+					addFn(x)
+				}
+			case *ssa.Type:
+				for _, tt := range []types.Type{x.Type(), types.NewPointer(x.Type())} {
+					ms := prog.MethodSets.MethodSet(tt)
+					for i := 0; i < ms.Len(); i++ {
+						if fn, ok := ms.At(i).Obj().(*types.Func); ok && fn.Pkg() != nil && fn.Pkg().Path() == path {
+							addFn(prog.FuncValue(fn))
+						}
+					}
+				}
+			}
+		}
+	}
 	sort.Slice(p.Funcs, func(i, j int) bool { return p.fnKey(p.Funcs[i]) < p.fnKey(p.Funcs[j]) })
-	if len(p.Funcs) < 100 {
-		broken("only %d in-scope functions found (floor 100)", len(p.Funcs))
+	if len(p.Funcs) < loadMinFuncs {
+		broken("only %d in-scope functions found (floor %d)", len(p.Funcs), loadMinFuncs)
 	}
 	return p
 }
